@@ -2,8 +2,11 @@
 (***************************************************************************)
 (* Composition model for C09: stopping a whole Redis processor             *)
 (* (proc/redis/redis.go:164-169: listener first, then upstream) with       *)
-(*   - one downstream session (proc/redis/session.go) whose head request   *)
-(*     may be waiting for the backend,                                     *)
+(*   - one downstream session (proc/redis/session.go) with NReq pipelined  *)
+(*     requests and a reply queue (processingReqs, capacity 32 in the      *)
+(*     code, SessQCap here) between its reader and its writer: the head    *)
+(*     request may be waiting for the backend while the reader is blocked  *)
+(*     handing a later request to the writer,                              *)
 (*   - the slot refresher (proc/redis/upstream.go loopRefreshSlots /       *)
 (*     doSlotsRefresh) whose CLUSTER NODES request may be waiting for the  *)
 (*     backend,                                                            *)
@@ -21,26 +24,40 @@
 (*                    req.Wait(), session.go loopWrite)                    *)
 (*   FixRefreshWait - doSlotsRefresh waits with select {request done |     *)
 (*                    upstream quit} (pinned: plain req.Wait())            *)
+(*   FixProcQuit    - redisProc.Stop first closes a quit latch of the      *)
+(*                    processor, and the three selects of a session        *)
+(*                    (reader enqueue, writer dequeue, writer wait) have   *)
+(*                    it as an alternative (without it: a reader blocked   *)
+(*                    on the full reply queue and a writer waiting for a   *)
+(*                    silent backend never notice that the listener closed *)
+(*                    the connection - neither of them reads it)           *)
 (***************************************************************************)
-EXTENDS Naturals, FiniteSets, TLC
+EXTENDS Naturals, Sequences, FiniteSets, TLC
 
 CONSTANTS Backends,          \* initial behaviours of the backend: subset of {"responsive", "silent", "closed"}
           MayClose,          \* the backend may go away later (connection dropped)
           WithSession, WithRefresh,
-          FixSessionWait, FixRefreshWait,
+          FixSessionWait, FixRefreshWait, FixProcQuit,
+          NReq,              \* requests the downstream client pipelines (session requests 1..NReq)
+          SessQCap,          \* capacity of session.processingReqs (code: 32)
           MaxRounds          \* refresh rounds
 
-Reqs == {"sreq", "rreq"}
+RReq == 0                    \* the refresher's CLUSTER NODES request
+SReqs == 1..NReq             \* the session's requests, in the order the client sent them
+Reqs == SReqs \cup {RReq}
 
 VARIABLES
   backend,   \* "responsive" | "silent" | "closed"
   xp,        \* pc of redisProc.Stop
   dconn,     \* the session's downstream connection: "open" | "closed"
+  pquit,     \* the processor's quit latch (repaired code)
   squit,     \* session quit latch
   rd,        \* session reader pc
+  nread,     \* requests the reader has handed to the writer so far (it works on nread + 1)
   wr,        \* session writer pc
-  sessQ,     \* session.processingReqs holds sreq
-  sent,      \* the downstream client has sent its request
+  wcur,      \* the request the writer has taken from the queue (0: none)
+  sessQ,     \* session.processingReqs (FIFO)
+  sent,      \* number of requests the downstream client has sent
   req,       \* per request: "none" | "pending" | "ok" | "err"
   client,    \* backend connection: "none" | "alive" | "dead"
   inflight,  \* requests handed to the backend connection and not yet completed
@@ -49,15 +66,15 @@ VARIABLES
   rf,        \* pc of the slot refresher
   rounds
 
-vars == <<backend, xp, dconn, squit, rd, wr, sessQ, sent, req, client, inflight, uquit, udone, up, rf, rounds>>
+vars == <<backend, xp, dconn, pquit, squit, rd, nread, wr, wcur, sessQ, sent, req, client, inflight, uquit, udone, up, rf, rounds>>
 
 TypeOK ==
   /\ backend \in {"responsive", "silent", "closed"}
-  /\ xp \in {"idle", "x0", "x1", "x2", "x3", "x4", "ret"}
-  /\ dconn \in {"open", "closed"} /\ squit \in BOOLEAN
+  /\ xp \in {"idle", "x0", "x0b", "x1", "x2", "x3", "ret"}
+  /\ dconn \in {"open", "closed"} /\ squit \in BOOLEAN /\ pquit \in BOOLEAN
   /\ rd \in {"read", "handle", "enqueue", "rexit", "rwait", "done", "absent"}
   /\ wr \in {"select", "wait", "encode", "exited", "absent"}
-  /\ sessQ \in BOOLEAN /\ sent \in BOOLEAN
+  /\ sessQ \in Seq(SReqs) /\ Len(sessQ) <= SessQCap /\ sent \in 0..NReq /\ nread \in 0..NReq /\ wcur \in 0..NReq
   /\ req \in [Reqs -> {"none", "pending", "ok", "err"}]
   /\ client \in {"none", "alive", "dead"} /\ inflight \subseteq Reqs
   /\ uquit \in BOOLEAN /\ udone \in BOOLEAN
@@ -67,9 +84,9 @@ TypeOK ==
 
 Init ==
   /\ backend \in Backends /\ xp = "idle"
-  /\ dconn = (IF WithSession THEN "open" ELSE "closed") /\ squit = FALSE
+  /\ dconn = (IF WithSession THEN "open" ELSE "closed") /\ squit = FALSE /\ pquit = FALSE
   /\ rd = (IF WithSession THEN "read" ELSE "absent") /\ wr = (IF WithSession THEN "select" ELSE "absent")
-  /\ sessQ = FALSE /\ sent = FALSE
+  /\ sessQ = <<>> /\ sent = 0 /\ nread = 0 /\ wcur = 0
   /\ req = [r \in Reqs |-> "none"] /\ client = "none" /\ inflight = {}
   /\ uquit = FALSE /\ udone = FALSE /\ up = "run"
   /\ rf = (IF WithRefresh THEN "sel" ELSE "absent") /\ rounds = 0
@@ -87,88 +104,101 @@ FailInflight == req' = [r \in Reqs |-> IF r \in inflight THEN "err" ELSE req[r]]
 
 -----------------------------------------------------------------------------
 (* environment                                                             *)
+SessVars == <<rd, nread, wr, wcur, sessQ>>
+UpVars == <<uquit, udone, up, rf, rounds>>
+
+\* the downstream client pipelines its next request
 ClientSend ==
-  /\ WithSession /\ ~sent /\ dconn = "open" /\ sent' = TRUE
-  /\ UNCHANGED <<backend, xp, dconn, squit, rd, wr, sessQ, req, client, inflight, uquit, udone, up, rf, rounds>>
+  /\ WithSession /\ sent < NReq /\ dconn = "open" /\ sent' = sent + 1
+  /\ UNCHANGED <<backend, xp, dconn, pquit, squit, SessVars, req, client, inflight, UpVars>>
 
 ClientClose ==
   /\ dconn = "open" /\ dconn' = "closed"
-  /\ UNCHANGED <<backend, xp, squit, rd, wr, sessQ, sent, req, client, inflight, uquit, udone, up, rf, rounds>>
+  /\ UNCHANGED <<backend, xp, pquit, squit, SessVars, sent, req, client, inflight, UpVars>>
 
 BackendReply(r) ==
   /\ backend = "responsive" /\ client = "alive" /\ r \in inflight
   /\ req' = [req EXCEPT ![r] = "ok"] /\ inflight' = inflight \ {r}
-  /\ UNCHANGED <<backend, xp, dconn, squit, rd, wr, sessQ, sent, client, uquit, udone, up, rf, rounds>>
+  /\ UNCHANGED <<backend, xp, dconn, pquit, squit, SessVars, sent, client, UpVars>>
 
 \* the backend goes away: the established connection is dropped, the client exits and drains
 BackendCloses ==
   /\ MayClose /\ backend # "closed" /\ backend' = "closed"
   /\ IF client = "alive" THEN client' = "dead" /\ FailInflight ELSE UNCHANGED <<client, req, inflight>>
-  /\ UNCHANGED <<xp, dconn, squit, rd, wr, sessQ, sent, uquit, udone, up, rf, rounds>>
+  /\ UNCHANGED <<xp, dconn, pquit, squit, SessVars, sent, UpVars>>
 
 CallStop ==
   /\ xp = "idle" /\ xp' = "x0"
-  /\ UNCHANGED <<backend, dconn, squit, rd, wr, sessQ, sent, req, client, inflight, uquit, udone, up, rf, rounds>>
+  /\ UNCHANGED <<backend, dconn, pquit, squit, SessVars, sent, req, client, inflight, UpVars>>
 
 -----------------------------------------------------------------------------
-(* redisProc.Stop (redis.go:164-169)                                       *)
+(* redisProc.Stop (redis.go:170-176)                                       *)
+\* (repaired: close(p.quit))
+X0 == /\ xp = "x0" /\ pquit' = FixProcQuit /\ xp' = "x0b"
+      /\ UNCHANGED <<backend, dconn, squit, SessVars, sent, req, client, inflight, UpVars>>
 \* p.l.Stop(): close(quit), close the socket and the session's connection
-X0 == /\ xp = "x0" /\ dconn' = "closed" /\ xp' = "x1"
-      /\ UNCHANGED <<backend, squit, rd, wr, sessQ, sent, req, client, inflight, uquit, udone, up, rf, rounds>>
+X0b == /\ xp = "x0b" /\ dconn' = "closed" /\ xp' = "x1"
+       /\ UNCHANGED <<backend, pquit, squit, SessVars, sent, req, client, inflight, UpVars>>
 \* ... <-l.done: the listener's Serve has seen every handler finish
 X1 == /\ xp = "x1" /\ SessionDone /\ xp' = "x2"
-      /\ UNCHANGED <<backend, dconn, squit, rd, wr, sessQ, sent, req, client, inflight, uquit, udone, up, rf, rounds>>
+      /\ UNCHANGED <<backend, dconn, pquit, squit, SessVars, sent, req, client, inflight, UpVars>>
 \* p.u.Stop(): close(u.quit)
 X2 == /\ xp = "x2" /\ uquit' = TRUE /\ xp' = "x3"
-      /\ UNCHANGED <<backend, dconn, squit, rd, wr, sessQ, sent, req, client, inflight, udone, up, rf, rounds>>
+      /\ UNCHANGED <<backend, dconn, pquit, squit, SessVars, sent, req, client, inflight, udone, up, rf, rounds>>
 \* ... <-u.done; p.wg.Wait()
 X3 == /\ xp = "x3" /\ udone /\ xp' = "ret"
-      /\ UNCHANGED <<backend, dconn, squit, rd, wr, sessQ, sent, req, client, inflight, uquit, udone, up, rf, rounds>>
-StopNext == X0 \/ X1 \/ X2 \/ X3
+      /\ UNCHANGED <<backend, dconn, pquit, squit, SessVars, sent, req, client, inflight, UpVars>>
+StopNext == X0 \/ X0b \/ X1 \/ X2 \/ X3
 
 -----------------------------------------------------------------------------
 (* session reader (session.go loopRead and the tail of Serve)              *)
+ProcQuit == FixProcQuit /\ pquit
+
+\* dec.Decode(): the next pipelined request, or an error once the connection is closed
 RdRead ==
   /\ rd = "read"
   /\ \/ dconn = "closed" /\ rd' = "rexit"
-     \/ dconn = "open" /\ sent /\ req["sreq"] = "none" /\ rd' = "handle"
-  /\ UNCHANGED <<backend, xp, dconn, squit, wr, sessQ, sent, req, client, inflight, uquit, udone, up, rf, rounds>>
+     \/ dconn = "open" /\ nread < sent /\ rd' = "handle"
+  /\ UNCHANGED <<backend, xp, dconn, pquit, squit, nread, wr, wcur, sessQ, sent, req, client, inflight, UpVars>>
+\* p.handleRequest(req)
 RdHandle ==
-  /\ rd = "handle" /\ MakeRequest("sreq") /\ rd' = "enqueue"
-  /\ UNCHANGED <<backend, xp, dconn, squit, wr, sessQ, sent, uquit, udone, up, rf, rounds>>
+  /\ rd = "handle" /\ MakeRequest(nread + 1) /\ rd' = "enqueue"
+  /\ UNCHANGED <<backend, xp, dconn, pquit, squit, nread, wr, wcur, sessQ, sent, UpVars>>
+\* select {processingReqs <- req | <-s.quit -> return | (repaired) <-s.p.quit -> return}
 RdEnqueue ==
   /\ rd = "enqueue"
-  /\ \/ sessQ' = TRUE /\ rd' = "read"
-     \/ squit /\ rd' = "rexit" /\ UNCHANGED sessQ
-  /\ UNCHANGED <<backend, xp, dconn, squit, wr, sent, req, client, inflight, uquit, udone, up, rf, rounds>>
+  /\ \/ Len(sessQ) < SessQCap /\ sessQ' = Append(sessQ, nread + 1) /\ nread' = nread + 1 /\ rd' = "read"
+     \/ (squit \/ ProcQuit) /\ rd' = "rexit" /\ UNCHANGED <<sessQ, nread>>
+  /\ UNCHANGED <<backend, xp, dconn, pquit, squit, wr, wcur, sent, req, client, inflight, UpVars>>
 \* conn.Close(); doQuit()
 RdExit ==
   /\ rd = "rexit" /\ dconn' = "closed" /\ squit' = TRUE /\ rd' = "rwait"
-  /\ UNCHANGED <<backend, xp, wr, sessQ, sent, req, client, inflight, uquit, udone, up, rf, rounds>>
+  /\ UNCHANGED <<backend, xp, pquit, nread, wr, wcur, sessQ, sent, req, client, inflight, UpVars>>
 \* <-writeDone; close(s.done); the listener's handler returns
 RdWait ==
   /\ rd = "rwait" /\ wr = "exited" /\ rd' = "done"
-  /\ UNCHANGED <<backend, xp, dconn, squit, wr, sessQ, sent, req, client, inflight, uquit, udone, up, rf, rounds>>
+  /\ UNCHANGED <<backend, xp, dconn, pquit, squit, nread, wr, wcur, sessQ, sent, req, client, inflight, UpVars>>
 ReaderNext == RdRead \/ RdHandle \/ RdEnqueue \/ RdExit \/ RdWait
 
 (* session writer (session.go loopWrite)                                   *)
 WrExit == wr' = "exited" /\ dconn' = "closed" /\ squit' = TRUE
+\* select {<-s.quit -> return | (repaired) <-s.p.quit -> return | req = <-processingReqs}
 WrSelect ==
   /\ wr = "select"
-  /\ \/ squit /\ WrExit /\ UNCHANGED sessQ
-     \/ sessQ /\ sessQ' = FALSE /\ wr' = "wait" /\ UNCHANGED <<dconn, squit>>
-  /\ UNCHANGED <<backend, xp, rd, sent, req, client, inflight, uquit, udone, up, rf, rounds>>
-\* req.Wait()  (repaired: select {<-req.done | <-s.quit -> return})
+  /\ \/ (squit \/ ProcQuit) /\ WrExit /\ UNCHANGED <<sessQ, wcur>>
+     \/ sessQ # <<>> /\ wcur' = Head(sessQ) /\ sessQ' = Tail(sessQ) /\ wr' = "wait" /\ UNCHANGED <<dconn, squit>>
+  /\ UNCHANGED <<backend, xp, pquit, rd, nread, sent, req, client, inflight, UpVars>>
+\* req.Wait()  (repaired: select {<-req.done | <-s.quit -> return | <-s.p.quit -> return})
 WrWait ==
   /\ wr = "wait"
-  /\ \/ req["sreq"] \in {"ok", "err"} /\ wr' = "encode" /\ UNCHANGED <<dconn, squit>>
-     \/ FixSessionWait /\ squit /\ WrExit
-  /\ UNCHANGED <<backend, xp, rd, sessQ, sent, req, client, inflight, uquit, udone, up, rf, rounds>>
+  /\ \/ req[wcur] \in {"ok", "err"} /\ wr' = "encode" /\ UNCHANGED <<dconn, squit>>
+     \/ ((FixSessionWait /\ squit) \/ ProcQuit) /\ WrExit
+  /\ UNCHANGED <<backend, xp, pquit, rd, nread, wcur, sessQ, sent, req, client, inflight, UpVars>>
 \* encode + flush: fails on a closed connection
 WrEncode ==
   /\ wr = "encode"
-  /\ IF dconn = "closed" THEN WrExit ELSE wr' = "select" /\ UNCHANGED <<dconn, squit>>
-  /\ UNCHANGED <<backend, xp, rd, sessQ, sent, req, client, inflight, uquit, udone, up, rf, rounds>>
+  /\ IF dconn = "closed" THEN WrExit /\ UNCHANGED wcur ELSE wr' = "select" /\ wcur' = 0 /\ UNCHANGED <<dconn, squit>>
+  /\ UNCHANGED <<backend, xp, pquit, rd, nread, sessQ, sent, req, client, inflight, UpVars>>
 WriterNext == WrSelect \/ WrWait \/ WrEncode
 
 -----------------------------------------------------------------------------
@@ -176,36 +206,36 @@ WriterNext == WrSelect \/ WrWait \/ WrEncode
 (* hot-key collector, which returns on quit), stop every client, close done *)
 UpWait ==
   /\ up = "run" /\ uquit /\ rf \in {"exited", "absent"} /\ up' = "stopClients"
-  /\ UNCHANGED <<backend, xp, dconn, squit, rd, wr, sessQ, sent, req, client, inflight, uquit, udone, rf, rounds>>
+  /\ UNCHANGED <<backend, xp, dconn, pquit, squit, SessVars, sent, req, client, inflight, uquit, udone, rf, rounds>>
 UpStopClients ==
   /\ up = "stopClients" /\ up' = "done" /\ udone' = TRUE
   /\ IF client = "alive" THEN client' = "dead" /\ FailInflight ELSE UNCHANGED <<client, req, inflight>>
-  /\ UNCHANGED <<backend, xp, dconn, squit, rd, wr, sessQ, sent, uquit, rf, rounds>>
+  /\ UNCHANGED <<backend, xp, dconn, pquit, squit, SessVars, sent, uquit, rf, rounds>>
 UpstreamNext == UpWait \/ UpStopClients
 
 (* slot refresher (upstream.go loopRefreshSlots / doSlotsRefresh)          *)
 RfSelect ==
   /\ rf = "sel"
   /\ \/ uquit /\ rf' = "exited" /\ UNCHANGED <<req, rounds>>
-     \/ rounds < MaxRounds /\ rf' = "refresh" /\ rounds' = rounds + 1 /\ req' = [req EXCEPT !["rreq"] = "none"]
-  /\ UNCHANGED <<backend, xp, dconn, squit, rd, wr, sessQ, sent, client, inflight, uquit, udone, up>>
+     \/ rounds < MaxRounds /\ rf' = "refresh" /\ rounds' = rounds + 1 /\ req' = [req EXCEPT ![RReq] = "none"]
+  /\ UNCHANGED <<backend, xp, dconn, pquit, squit, SessVars, sent, client, inflight, uquit, udone, up>>
 RfRefresh ==
-  /\ rf = "refresh" /\ req["rreq"] = "none" /\ "rreq" \notin inflight
-  /\ MakeRequest("rreq") /\ rf' = "rwait"
-  /\ UNCHANGED <<backend, xp, dconn, squit, rd, wr, sessQ, sent, uquit, udone, up, rounds>>
+  /\ rf = "refresh" /\ req[RReq] = "none" /\ RReq \notin inflight
+  /\ MakeRequest(RReq) /\ rf' = "rwait"
+  /\ UNCHANGED <<backend, xp, dconn, pquit, squit, SessVars, sent, uquit, udone, up, rounds>>
 \* req.Wait()  (repaired: select {<-req.done | <-u.quit -> return an error})
 RfWait ==
   /\ rf = "rwait"
-  /\ \/ req["rreq"] \in {"ok", "err"}
+  /\ \/ req[RReq] \in {"ok", "err"}
      \/ FixRefreshWait /\ uquit
   /\ rf' = "timer"
-  /\ UNCHANGED <<backend, xp, dconn, squit, rd, wr, sessQ, sent, req, client, inflight, uquit, udone, up, rounds>>
+  /\ UNCHANGED <<backend, xp, dconn, pquit, squit, SessVars, sent, req, client, inflight, uquit, udone, up, rounds>>
 \* select {minimum-rate timer | quit -> return}
 RfTimer ==
   /\ rf = "timer"
   /\ \/ uquit /\ rf' = "exited"
      \/ ~uquit /\ rf' = "sel"
-  /\ UNCHANGED <<backend, xp, dconn, squit, rd, wr, sessQ, sent, req, client, inflight, uquit, udone, up, rounds>>
+  /\ UNCHANGED <<backend, xp, dconn, pquit, squit, SessVars, sent, req, client, inflight, uquit, udone, up, rounds>>
 RefreshNext == RfSelect \/ RfRefresh \/ RfWait \/ RfTimer
 
 -----------------------------------------------------------------------------
@@ -225,7 +255,7 @@ Spec == Init /\ [][Next]_vars /\ Fairness
 StopReturns == (xp = "x0") ~> (xp = "ret")
 
 \* safety form: Stop waits and nothing the proxy or a responsive backend can do lets it return
-StopStuck == xp \in {"x0", "x1", "x2", "x3"} /\ ~ENABLED ProxyNext /\ ~ENABLED (\E r \in Reqs : BackendReply(r))
+StopStuck == xp \in {"x0", "x0b", "x1", "x2", "x3"} /\ ~ENABLED ProxyNext /\ ~ENABLED (\E r \in Reqs : BackendReply(r))
 NoStuckStop == ~StopStuck
 
 \* afterwards nothing is left: session goroutines, refresher, backend connection
@@ -235,6 +265,11 @@ AfterStopAllReleased ==
     /\ rf \in {"exited", "absent"} /\ up = "done" /\ client # "alive" /\ inflight = {}
 
 \* the windows of the two waits (reachability checked by RedisStopWin.tla)
-W_StopWithSilentBackend == xp = "x1" /\ wr = "wait" /\ req["sreq"] = "pending" /\ backend = "silent"
-W_StopWhileRefreshWaits == xp = "x3" /\ rf = "rwait" /\ req["rreq"] = "pending" /\ backend = "silent"
+W_StopWithSilentBackend == xp = "x1" /\ wr = "wait" /\ req[wcur] = "pending" /\ backend = "silent"
+\* the reader is blocked on the full reply queue while the writer waits for the silent backend:
+\* nobody reads the connection the listener has just closed
+W_StopWithFullSessionQueue ==
+  /\ xp = "x1" /\ rd = "enqueue" /\ Len(sessQ) = SessQCap /\ ~squit
+  /\ wr = "wait" /\ req[wcur] = "pending" /\ backend = "silent"
+W_StopWhileRefreshWaits == xp = "x3" /\ rf = "rwait" /\ req[RReq] = "pending" /\ backend = "silent"
 =============================================================================
